@@ -58,6 +58,18 @@ pub fn spec(id: &str) -> Option<Spec> {
                 generate: Box::new(move |t, s, i| c09::gen_case(&plan, t, s, i)),
             })
         }
+        "C11" => Some(Spec {
+            id: "C11",
+            level: "exploration",
+            rule: "A case is a history of document kinds for one target (6 targets x 12-13 kinds: valid shapes, empty, explicit null, defining anchors, aliasing an anchor of an earlier document, type error early / late, surplus / missing element, duplicate key, three syntax errors), with seeded end markers / trailing comments / start marker and 5 chunk schedules. ALL histories up to length 3 (thorough: 4) are enumerated per target, then random histories of length 2..8. Model: every document is classified on its own (raw parser: syntax error / empty-or-null; from_str alone: value or type-level error); batch, slice-batch, read, read_with_options under each schedule and the four single-document entry points are compared with the list of per-document results and the resynchronisation rules. One evaluation = one library call on the stream. Non-trivial = iterator executions on streams of at least two documents; distinct = distinct (stream text, request trace) digests.".into(),
+            assumptions: vec![
+                "whether the iterator continues after a document that aliases an anchor of an earlier document is not prescribed (must fail, may continue or end)".into(),
+                "single-document entry points are only asserted on streams with at least two content documents".into(),
+            ],
+            components: components(),
+            total: Box::new(c11::total),
+            generate: Box::new(c11::gen_case),
+        }),
         _ => None,
     }
 }
@@ -68,6 +80,7 @@ pub fn exec(case: &Case, st: &mut Stats) -> Vec<Viol> {
         Case::C10W(c) => c10::exec_writer(c, st),
         Case::C09(c) => c09::exec_agree(c, st),
         Case::C09B(c) => c09::exec_borrow(c, st),
+        Case::C11(c) => c11::exec(c, st),
     }
 }
 
@@ -77,5 +90,6 @@ pub fn shrink_candidates(case: &Case) -> Vec<Case> {
         Case::C10W(c) => c10::shrink_writer(c),
         Case::C09(c) => c09::shrink_agree(c),
         Case::C09B(c) => c09::shrink_borrow(c),
+        Case::C11(c) => c11::shrink(c),
     }
 }
